@@ -5,11 +5,13 @@ import (
 	"strconv"
 
 	ice "github.com/pion/ice/v4"
+
+	. "verif/gotools/hlib"
 )
 
 // suite "prio" (C17): candidate priorities over configuration sweeps, pair priorities at
 // boundaries and random interior points, cross-agent mirror symmetry, foundations.
-func init() { register("prio", runPrio) }
+func main() { Main("prio", runPrio) }
 
 func prioHostWith(prio uint32) ice.Candidate {
 	// a candidate whose Priority() is exactly prio (0 cannot be expressed as an override:
